@@ -65,7 +65,7 @@ def gen_c01(tier, rng):
                 if len(argv) == 4:
                     out.append(pcase("C01", d, {}, argv))
     out += random_argv_cases("C01", rng, 40000 if big else 4000)
-    return with_moved(out, rng, 6000 if tier == "thorough" else 1500)
+    return with_histories(with_moved(out, rng, 6000 if tier == "thorough" else 1500), rng, 2400 if tier == "thorough" else 600)
 
 
 VALUES = ["", "v", "a=b", "=", " ", "x y", "--x", "-", "-5", "x\ny", "a\rb", "\xff\x80", "z" * 200, "--", "42", "-17",
@@ -153,13 +153,61 @@ def gen_c02(tier, rng):
             if not v.startswith("-"):
                 out.append(pcase("C02", d, {}, [head, v]))
             out.append(pcase("C02", d, {}, ["--", v]))
-    return with_moved(out, rng, 6000 if tier == "thorough" else 1500)
+    return with_histories(with_moved(out, rng, 6000 if tier == "thorough" else 1500), rng, 2400 if tier == "thorough" else 600)
 
 
 ENV_VALUES = [None, "", "v", "--a=b", "-5", "-", "a;b", ";", "x;", "a=b", ";;", "a;;b", " ", "TRUE", "off", "maybe",
               "\xff;\x01",
               # the environment says exactly what the declared default says (option "dv", multi-option d1;d2)
               "dv", "d1;d2", "cli"]
+
+
+def hist_defaults(tag):
+    """on every template: a parse that falls back on the declared defaults, then a parse that gives the option (each
+    spelling), then the defaults again — one parser object, plain and moved in between"""
+    out = []
+    extra = D([O("t", "lvl", "l", dflt=2, flag=True), O("t", "on", "n", dflt=1), O("o", "out", "o", dflt="dv"),
+               O("m", "inc", "I", dflt=["d1", "d2"]), O("o", "req", "r", env="NV_R", flag=True)], allowed=None)
+    for d in og.templates() + [extra]:
+        for it in d.items:
+            if it.dflt is None:
+                continue
+            if it.kind == "t":
+                gives = [["--" + it.name]] + ([["-" + it.short], ["-" + it.short * 2]] if it.short else []) + \
+                        ([["--no-" + it.name]] if it.flag else [])
+            else:
+                gives = [["--" + it.name, "x"], ["--" + it.name + "=x"]] + ([["-" + it.short, "x"]] if it.short else [])
+            base = [a for a in ([],) ]
+            # whatever else the template requires is given every time
+            req = []
+            for o in d.items:
+                if o.kind in "om" and o.dflt is None and not o.flag and o is not it:
+                    req += ["--" + o.name, "r"]
+            for g in gives:
+                for op in ("H", "HM"):
+                    out.append("\t".join(["opt", tag, op, d.enc(), env_enc({}), hexl(req), env_enc({}), hexl(req + g),
+                                          env_enc({}), hexl(req)]))
+    return out
+
+
+def with_histories(cases, rng, n):
+    """pairs of parses of the family on ONE parser object (plain, and with the parser moved in between): what the
+    property says about a parse holds for every parse, not only for the first one on a fresh parser"""
+    by_decl = {}
+    for c in cases:
+        f = c.split("\t")
+        if len(f) == 6 and f[2] == "P":
+            by_decl.setdefault((f[1], f[3]), []).append((f[4], f[5]))
+    keys = [k for k, v in by_decl.items() if len(v) >= 2]
+    out = []
+    for _ in range(n if keys else 0):
+        tag, decl = rng.choice(keys)
+        a, b = rng.choice(by_decl[(tag, decl)]), rng.choice(by_decl[(tag, decl)])
+        if rng.chance(1, 3):
+            a = (env_enc({}), hexl([]))      # the first parse falls back on the defaults
+        out.append("\t".join(["opt", tag, rng.choice(["H", "H", "HM"]), decl, a[0], a[1], b[0], b[1]]))
+    tags = sorted({k[0] for k in by_decl})
+    return cases + out + (hist_defaults(tags[0]) if tags else [])
 
 
 def with_moved(cases, rng, n):
@@ -207,7 +255,7 @@ def gen_c03(tier, rng):
         al = [t for t in og.alphabet(d) if t.startswith("--") and "zz" not in t and "no-" not in t] + ["val"]
         argv = [rng.choice(al) for _ in range(rng.below(4))] if al else []
         out.append(pcase("C03", d, env, argv))
-    return with_moved(out, rng, 3200 if tier == "thorough" else 800)
+    return with_histories(with_moved(out, rng, 3200 if tier == "thorough" else 800), rng, 2400 if tier == "thorough" else 600)
 
 
 def tcase(tok):
@@ -250,7 +298,7 @@ def gen_c04(tier, rng):
         out.append(pcase("C04", d, {}, ["--req=" + "y" * n]))
         out.append(pcase("C04", d, {}, ["--" + "n" * n]))
         out.append(pcase("C04", d, {}, ["--req=x", "-v=" + "=" * n]))
-    return out
+    return with_histories(out, rng, 2400 if tier == "thorough" else 600)
 
 
 def ecase(w):
@@ -293,7 +341,7 @@ def gen_c11(tier, rng):
     for _ in range(20000 if big else 2000):
         argv = [rng.choice(al) for _ in range(rng.below(10))]
         out.append(pcase("C11", d, rng.choice([{}, {"NV_A": rng.choice(TRUTHY + FALSY + ["x"])}]), argv))
-    return with_moved(out, rng, 6000 if tier == "thorough" else 1500)
+    return with_histories(with_moved(out, rng, 6000 if tier == "thorough" else 1500), rng, 2400 if tier == "thorough" else 600)
 
 
 def icase(pos, i):
@@ -326,7 +374,7 @@ def gen_c12(tier, rng):
         argv = [rng.choice(["v", "w", "", "--opt", "--opt=x", "-o", "--tog", "-t", "--mul", "--", "-", "---x", "a=b"])
                 for _ in range(rng.below(9))]
         out.append(pcase("C12", d, {}, argv))
-    return with_moved(out, rng, 12000 if tier == "thorough" else 3000)
+    return with_histories(with_moved(out, rng, 12000 if tier == "thorough" else 3000), rng, 2400 if tier == "thorough" else 600)
 
 
 def hcase(d, steps):
